@@ -51,7 +51,11 @@ for sid in ids:
         assert rc == 0, o
         try:
             runs = {}
+            primary = meta["breaks_property"]
+            props = [primary] + [p for p in props if p != primary]
             for p in props:
+                if p != primary and runs.get(primary, {}).get("exit") == 1 and runs[primary]["violation_lines"] > 0:
+                    break  # caught by its own property's check: the other checks are run only for a miss
                 rc, o = sh(["/verif/check", p], cwd="/verif")
                 lines = [l for l in o.split("\n") if l.startswith("VIOLATION")]
                 more = re.search(r"\((\d+) further violations", o)
